@@ -239,6 +239,9 @@ def run(chk, repo):
     from rules.shared import w2f_scan_complete
     chk.clauses.append('C01.s (shared with C08.i / C09.j) the W>F candidate scan covers every tryptophan of a variant peptide, the first and the last residue included')
     w2f_scan_complete(chk, repo, 'C01.s')
+    from rules.C05 import met_allowance_rule
+    chk.clauses.append('C01.t (shared with C05.h) the allowance for a leading Met in the length gates of a miscleaved series equals the residues removed from the emitted Met-cleaved form, read from the FIRST node: the Met-cleaved form of a max_length + 1 peptide is still reported')
+    met_allowance_rule(chk, repo, 'C01.t')
 
 
 def skip_guard_contract(chk, repo, rid):
